@@ -22,10 +22,7 @@
 
 package actor
 
-import (
-	"sync"
-	"sync/atomic"
-)
+import "sync/atomic"
 
 const segmentSize = 256
 
@@ -44,17 +41,14 @@ type segment struct {
 	data [segmentSize]atomic.Pointer[ReceiveContext]
 }
 
-var segmentPool = sync.Pool{New: func() any { return new(segment) }}
-
+// newSegment allocates a segment. Segments are not recycled: a producer may
+// still hold a pointer to a segment the consumer has finished with (it loaded
+// the tail and was delayed), and had that segment been reset and linked in
+// again at the end of the chain, the producer's full-segment path would link a
+// successor behind it and swing the tail past a segment that is not full.
+// Finished segments are reclaimed by the garbage collector.
 func newSegment() *segment {
-	seg := segmentPool.Get().(*segment)
-	seg.writeIdx.Store(0)
-	seg.deqIdx.Store(0)
-	seg.next.Store(nil)
-	for i := range seg.data {
-		seg.data[i].Store(nil)
-	}
-	return seg
+	return new(segment)
 }
 
 // UnboundedSegmentedMailbox is an unbounded, lock‑free MPSC mailbox that
@@ -73,8 +67,8 @@ func newSegment() *segment {
 //   - Hot‑path efficiency: producers reserve a slot by atomically incrementing a
 //     segment write index and store directly into a cache‑friendly array slot;
 //     the consumer reads sequentially via a dequeue index.
-//   - Low GC pressure: segments are pooled; steady‑state traffic typically
-//     performs zero allocations per message.
+//   - Low GC pressure: one segment allocation serves 256 messages; finished
+//     segments are left to the garbage collector (they are never reused).
 //   - Observability: IsEmpty is O(1); Len is an approximate atomic counter
 //     (best‑effort under concurrency) and intended for metrics, not strict
 //     synchronization.
@@ -84,8 +78,8 @@ func newSegment() *segment {
 //     stream sinks that receive from many producers concurrently. The
 //     segment‑locality reduces cache misses compared to list nodes.
 //   - Ingestion/telemetry/logging actors: bursts of events followed by quick
-//     processing. Segment pooling amortizes allocation spikes and keeps the hot
-//     path mostly allocation‑free.
+//     processing. Segments amortize allocation over 256 messages and keep the
+//     hot path mostly allocation‑free.
 //   - Scheduling/dispatch actors: timers, batchers, or background workers that
 //     consume quickly and benefit from contiguous array scans when draining.
 //   - Broker/bridge actors: gateways that translate external messages (NATS,
@@ -114,7 +108,7 @@ var _ Mailbox = (*UnboundedSegmentedMailbox)(nil)
 // NewUnboundedSegmentedMailbox creates and initializes a
 // UnboundedSegmentedMailbox.
 //
-// The mailbox starts with a single, pooled segment and grows by linking new
+// The mailbox starts with a single segment and grows by linking new
 // segments as necessary. Choose this mailbox when you need an unbounded, fast
 // MPSC queue with good cache locality and low allocation rates.
 func NewUnboundedSegmentedMailbox() *UnboundedSegmentedMailbox {
@@ -167,7 +161,7 @@ func (m *UnboundedSegmentedMailbox) Enqueue(value *ReceiveContext) error {
 // Semantics
 //   - Returns nil if the mailbox is empty.
 //   - Amortized O(1) for the single consumer: read from the current segment;
-//     when a segment is drained, advance to the next pooled segment.
+//     when a segment is drained, advance to the next segment.
 //
 // Single‑consumer requirement
 //   - Must be called from exactly one goroutine. Multiple consumers are not
@@ -188,15 +182,19 @@ func (m *UnboundedSegmentedMailbox) Dequeue() *ReceiveContext {
 			atomic.AddInt64(&m.length, -1)
 			return val
 		}
+		if deq < segmentSize {
+			// The segment is not exhausted: slots from deq on are unwritten as far as
+			// the write index read above tells. Producers may have filled them and
+			// linked a successor since that read; moving on now would skip messages
+			// that are still unread in this segment (they would be lost).
+			return nil
+		}
 		// current segment is drained; move to next if available
 		next := seg.next.Load()
 		if next == nil {
 			return nil
 		}
-		// recycle old head
 		m.head.Store(next)
-		seg.next.Store(nil)
-		segmentPool.Put(seg)
 		seg = next
 	}
 }
